@@ -32,7 +32,8 @@ def _matcher(e, p=None):
             and isinstance(e.comparators[0], ast.Constant) and e.comparators[0].value == 1 and isinstance(e.ops[0], ast.Eq):
         return "single"
     if isinstance(e, ast.Compare) and len(e.ops) == 1 and isinstance(e.left, ast.Attribute) and e.left.attr == "name" \
-            and isinstance(e.comparators[0], ast.Name) and e.comparators[0].id == "NOP_ACTION":
+            and ((isinstance(e.comparators[0], ast.Name) and e.comparators[0].id == "NOP_ACTION") or
+                 (isinstance(e.comparators[0], ast.Constant) and (getattr(e.comparators[0], "const_name", "") == "NOP_ACTION" or e.comparators[0].value == "nop"))):
         return "nop" if isinstance(e.ops[0], ast.Eq) else "!nop"
     return None
 
